@@ -463,7 +463,11 @@ func (g *Gen) EntTx(o *lab.Obs, hostilePct int) *TxPlan {
 	}
 	kind := r.Weighted([]int{20, 30, 50})
 	if len(raised) == 0 && kind == 2 {
-		kind = 1
+		if len(o.AcceptedQ) > 0 {
+			raised = append(raised, findPO(o, o.AcceptedQ[0]))
+		} else {
+			kind = 1
+		}
 	}
 	if len(o.Whitelist) == 0 {
 		kind = 0
@@ -508,6 +512,9 @@ func (g *Gen) EntTx(o *lab.Obs, hostilePct int) *TxPlan {
 		}
 		if r.Chance(5) && len(o.POs) > 0 {
 			id = o.POs[r.Intn(len(o.POs))].Id // possibly a terminal order
+		}
+		if r.Chance(15) && len(o.AcceptedQ) > 0 {
+			id = o.AcceptedQ[r.Intn(len(o.AcceptedQ))] // an order in its one-block accepted state
 		}
 		s := pickSigner()
 		dec := enttypes.StatusAccepted
@@ -634,4 +641,13 @@ func (g *Gen) FeeGrantPlan(granter, grantee lab.Acct) *TxPlan {
 		panic(err)
 	}
 	return &TxPlan{Spec: lab.TxSpec{Msgs: []sdk.Msg{m}, Signers: []lab.Acct{granter}}, Desc: fmt.Sprintf("FeeGrant(a%d->a%d)", g.idx(granter), g.idx(grantee))}
+}
+
+func findPO(o *lab.Obs, id uint64) enttypes.EnterpriseUndPurchaseOrder {
+	for _, po := range o.POs {
+		if po.Id == id {
+			return po
+		}
+	}
+	return enttypes.EnterpriseUndPurchaseOrder{Id: id}
 }
